@@ -80,19 +80,9 @@ def find_get(t, d):
     return None
 
 
-def run(chk, tier):
-    prog, info = common.program("all")
-    common.note_extraction(chk, info, prog)
-    common.vacuity(chk, ['R-LIN', 'R-WIRE'])
-    chk.explanation = ("R-LAYOUT on the 24-byte volume header (size_of = wire size, used to skip it). Tiling is proved as an induction over the splitting loop's "
-                       "value-numbered summary with the list algebra on bytes: content = concat(records) ++ remaining equals the input at entry, every iteration "
-                       "moves a prefix of `remaining` into one new record (split(x, n) = (a, b) with a ++ b = x) and the loop ends when nothing remains; a record's "
-                       "length is 4 + unsigned_abs(i32_be(first four bytes)). compressed() is the test bytes[4..6] == \"BZ\" (length-guarded); decompress() errors "
-                       "on an uncompressed record and otherwise inflates bytes[4..]; messages() errors on a compressed record and otherwise decodes the record's "
-                       "bytes; header accessors read their own fields; Chunk::new sniffs the same offsets.")
-    chk.trust("slice::split_at_checked(x, n) = Some((x[..n], x[n..])) when n <= len; bzip2 decompression fidelity is library behaviour and is not analysed")
-    layout.check_struct(chk, prog, HDR, want_deser=True)
-    layout.check_option_chain(chk, prog, HDR + "::deserialize")
+def records_and_payloads(chk, prog):
+    """the container obligations other properties rest on (C01: no radial is lost between the file bytes and the decoded
+    messages): records tile the bytes after the header, compressed() / decompress() / messages() / data() are as specified"""
     tiling(chk, prog)
     slf = P("self")
     d = call(REC + "data", slf)
@@ -175,6 +165,23 @@ def run(chk, tier):
                 break
         chk.ob("VN", RECORDS, bad is None and hsize == 24, "records() splits the bytes after the 24-byte header (size_of::<Header>() = %s), nothing when the file is shorter" % hsize if bad is None else
                "records() does not split exactly the bytes after the header: %s" % bad, fn.where(), key="skip-header")
+    return ev0
+
+
+def run(chk, tier):
+    prog, info = common.program("all")
+    common.note_extraction(chk, info, prog)
+    common.vacuity(chk, ['R-LIN', 'R-WIRE'])
+    chk.explanation = ("R-LAYOUT on the 24-byte volume header (size_of = wire size, used to skip it). Tiling is proved as an induction over the splitting loop's "
+                       "value-numbered summary with the list algebra on bytes: content = concat(records) ++ remaining equals the input at entry, every iteration "
+                       "moves a prefix of `remaining` into one new record (split(x, n) = (a, b) with a ++ b = x) and the loop ends when nothing remains; a record's "
+                       "length is 4 + unsigned_abs(i32_be(first four bytes)). compressed() is the test bytes[4..6] == \"BZ\" (length-guarded); decompress() errors "
+                       "on an uncompressed record and otherwise inflates bytes[4..]; messages() errors on a compressed record and otherwise decodes the record's "
+                       "bytes; header accessors read their own fields; Chunk::new sniffs the same offsets.")
+    chk.trust("slice::split_at_checked(x, n) = Some((x[..n], x[n..])) when n <= len; bzip2 decompression fidelity is library behaviour and is not analysed")
+    layout.check_struct(chk, prog, HDR, want_deser=True)
+    layout.check_option_chain(chk, prog, HDR + "::deserialize")
+    ev0 = records_and_payloads(chk, prog)
     # header accessors
     for acc, field in (("tape_filename", "tape_filename"), ("extension_number", "extension_number"), ("icao_of_radar", "icao_of_radar")):
         got, fn = eval_or_blind(chk, ev0, "R-WIRE", HDR + "::" + acc)
